@@ -22,8 +22,11 @@ import (
 // the segmenter's storage) keep their content until the next Init.
 
 type segOp struct {
-	Kind string `json:"kind"` // init | next | restart | stale
-	Text []rune `json:"text,omitempty"`
+	// init | next | restart | stale |
+	// burst_init: N-1 uncompared Init calls alternating between AltText and Text, then Init(Text) as "init"
+	Kind    string `json:"kind"`
+	Text    []rune `json:"text,omitempty"`
+	AltText []rune `json:"alt_text,omitempty"`
 	Iter string `json:"iter,omitempty"` // line | grapheme | word
 	N    int    `json:"n,omitempty"`
 }
@@ -133,7 +136,35 @@ func (m *segMachine) apply(op segOp) {
 	m.c.Ops = append(m.c.Ops, op)
 	ev.Journal("seginit", m.c) // names the culprit if the process hangs or dies in this step
 	switch op.Kind {
-	case "init":
+	case "burst_init", "init":
+		if op.Kind == "burst_init" {
+			for _, l := range m.live {
+				if len(m.stale) < 8 {
+					m.stale = append(m.stale, l.it)
+				}
+			}
+			m.live = map[string]*liveIter{}
+			a, b := copyRunes(op.AltText), copyRunes(op.Text)
+			if p := try(func() {
+				for i := 1; i < op.N; i++ {
+					if (op.N-i)%2 == 0 {
+						m.used.Init(b)
+					} else {
+						m.used.Init(a)
+					}
+				}
+			}); p != nil {
+				if _, pf := reference(op.AltText); pf == nil {
+					if _, pf = reference(op.Text); pf == nil {
+						m.fail("the burst of Init calls panicked on the used segmenter, a fresh one handles both texts: %v", p)
+					}
+				}
+			}
+			m.inits++
+			m.given = nil
+			m.text = nil
+			m.flags[burstLabel(op.N)] = true
+		}
 		arg := copyRunes(op.Text)
 		pu := try(func() { m.used.Init(arg) })
 		exp, pr := reference(op.Text)
@@ -250,6 +281,10 @@ func TestPropSegInit(t *testing.T) {
 				return
 			}
 			m.apply(segOp{Kind: "next", Iter: drawIter(rt), N: rapid.IntRange(1, 8).Draw(rt, "n")})
+		})
+		weighted(actions, "burst_init", 1, func(rt *rapid.T) {
+			text := drawMixedText(rt, ev.Scale(24, 80))
+			m.apply(segOp{Kind: "burst_init", Text: text, AltText: drawMixedText(rt, 8), N: drawBurstN(rt, len(text) <= 8)})
 		})
 		weighted(actions, "restart", 1, func(rt *rapid.T) { m.apply(segOp{Kind: "restart", Iter: drawIter(rt)}) })
 		weighted(actions, "stale", 1, func(rt *rapid.T) { m.apply(segOp{Kind: "stale", N: rapid.IntRange(1, 4).Draw(rt, "n")}) })
